@@ -194,10 +194,14 @@ fn one_system(st: &mut Stats, rng: &mut Rng) {
                 // log2 sizes of A, b, x0 in both unit systems; the recurrences form (A v).(A v) with v at the scale of the
                 // initial residual max(||b||, ||A|| ||x0||) (divided by max|b_i| once the library has rescaled b)
                 let fx0 = if x0.iter().all(|v| *v == 0.0) { f64::NEG_INFINITY } else { norm2(&x0).log2() };
+                // ... down to the scale of the CONVERGED residual tol*||b|| (thorough seed 3: (A s).(A s) went subnormal near
+                // convergence in the scaled units only, which changed the last bits and once the iteration count by two)
+                let ltol = tol.log2() - 10.0;
                 let ok_units = |fa: f64, fb: f64, fx: f64, bm: f64| -> bool {
                     let in_window = bm > 1.0e-100 && bm < 1.0e100; // the library's own test (src/sparse.rs rhs_scale)
                     let frs = if in_window { fb.max(fa + fx) } else { (fa + fx - fb).max(0.0) };
-                    (fa + frs).abs() < 460.0 && frs.abs() < 460.0 && fa.abs() < 900.0
+                    let fmin = if in_window { fb + ltol } else { ltol };
+                    (fa + frs).abs() < 460.0 && frs.abs() < 460.0 && fa.abs() < 900.0 && (fa + fmin).abs() < 460.0 && fmin.abs() < 460.0
                 };
                 let bmax2 = { let (f, g) = p2(alpha + beta); bmax * f * g };
                 let prod_ok = ok_units(sys.frob().log2() + alpha as f64, norm2(&b).log2() + (alpha + beta) as f64, fx0 + beta as f64, bmax2);
